@@ -282,5 +282,6 @@ def run(prog, rep, tier):
                 "separates", "chain_component", "transitive_closure")]
     pattern_entries(prog, rep, entries, not_charged=(U + "topological_ordering", U + "is_dag"))
     rep.require_count("PAT.entry", 13)
+    rep.exhaustive = True      # the finite tables (pairs / valuations) are enumerated completely
     rep.tables["admissible_pairs"] = ["%s,%s" % p for p in signs.PAIRS]
     rep.assume("input domain of the tables: binary PDAGs and DAG weight matrices of any sign (8 admissible entry pairs)")
